@@ -266,7 +266,35 @@ func (ex *Exec) step(fr *frame, st *State, reach *Term, instr ssa.Instruction, e
 		ex.rangeInit(fr, st, reach, in)
 	case *ssa.Next:
 		ex.rangeNext(fr, st, reach, in)
-	case *ssa.Go, *ssa.Send, *ssa.Select, *ssa.MakeChan:
+	case *ssa.MakeChan:
+		// a channel is an opaque, freshly allocated, non-nil reference (no buffer, no contents)
+		fr.env[in] = ex.freshRef(st, reach, "chan")
+	case *ssa.Go:
+		// Two schedules of the spawned goroutine are followed: it has run to completion at the spawn point, or it
+		// has not run at all yet (and does not until the spawning function returns). Other interleavings, and
+		// everything the goroutine does later, are outside the sequential model.
+		vc.note("go statement: the goroutine either ran to completion at the spawn point or has not started (two schedules; other interleavings are outside the model)")
+		if in.Call.IsInvoke() {
+			ex.unsupportedAt(in, "go statement on an interface method")
+		}
+		var args []Value
+		for _, a := range in.Call.Args {
+			args = append(args, ex.operand(fr, a))
+		}
+		fnv := ex.operand(fr, in.Call.Value)
+		ran := vc.FreshConst(fr.fn.Name()+".go.ran", SBool)
+		sub := st.clone()
+		_, nr := ex.callWithValues(fr, sub, And(reach, ran), &in.Call, fnv, args, in, exits)
+		skip := And(reach, Not(ran))
+		merged := ex.mergeStates(sub, func(i int) (*Term, *State) {
+			if i == 0 {
+				return nr, sub
+			}
+			return skip, st
+		}, 2)
+		*st = *merged
+		reach = vc.Def("reach.go", Or(nr, skip))
+	case *ssa.Send, *ssa.Select:
 		ex.unsupportedAt(in, fmt.Sprintf("concurrency instruction %T (outside the verified subset)", in))
 	default:
 		ex.unsupportedAt(in, fmt.Sprintf("instruction %T", in))
